@@ -242,3 +242,29 @@ Proof.
   - intros _ [= ].
   - contradiction.
 Qed.
+
+(* ---------- no two commits over "no index record" on one key (never-existed or compacted key) ---------- *)
+Lemma replay_idx_some store0 l1 : forall t q k a r f v p l0,
+  k_idx (replay store0 (l1 ++ EApplied t q k a r f v p :: l0) k) <> None.
+Proof.
+  induction l1 as [|e l1 IH]; intros t q k a r f v p l0; simpl.
+  - rewrite N.eqb_refl. simpl. discriminate.
+  - destruct e; try apply IH. destruct (k0 =? k); [simpl; discriminate|apply IH].
+Qed.
+
+Lemma no_double_success_none store0 l2 l1 l0 k t1 q1 a1 r1 f1 v1 p1 t2 q2 a2 r2 f2 v2 :
+  chain store0 (l2 ++ EApplied t2 q2 k a2 r2 f2 v2 None :: l1 ++ EApplied t1 q1 k a1 r1 f1 v1 p1 :: l0) -> False.
+Proof.
+  intros Hc.
+  assert (Hc2 : chain store0 (EApplied t2 q2 k a2 r2 f2 v2 None :: l1 ++ EApplied t1 q1 k a1 r1 f1 v1 p1 :: l0)).
+  { clear -Hc. induction l2 as [|e l2 IH]; [exact Hc|]. apply IH. exact (chain_tail _ _ _ Hc). }
+  destruct Hc2 as [(Hp2 & _) _]. symmetry in Hp2. exact (replay_idx_some _ _ _ _ _ _ _ _ _ _ _ Hp2).
+Qed.
+
+Lemma k_no_double_success_none cidx0 d0 store s : reach cidx0 d0 store s ->
+  forall l2 l1 l0 k t1 q1 a1 r1 f1 v1 p1 t2 q2 a2 r2 f2 v2,
+    log s = l2 ++ EApplied t2 q2 k a2 r2 f2 v2 None :: l1 ++ EApplied t1 q1 k a1 r1 f1 v1 p1 :: l0 -> False.
+Proof.
+  intros R l2 l1 l0 k t1 q1 a1 r1 f1 v1 p1 t2 q2 a2 r2 f2 v2 E.
+  pose proof (ch_chain _ _ (k_chain _ _ _ _ R)) as C. rewrite E in C. eapply no_double_success_none; exact C.
+Qed.
